@@ -1108,7 +1108,11 @@ where
 
     if let Some(transform_group) = &fold_group.transform {
         if transform_group.retransform.is_some() {
-            unimplemented!("re-transforming a @fold @transform value is currently not supported");
+            errors.push(FrontendError::OtherError(format!(
+                "Edge \"{}\" applies @transform more than once after @fold. Re-transforming \
+                a @fold @transform value is currently not supported.",
+                starting_field.name.as_ref()
+            )));
         }
 
         let fold_specific_field = match transform_group.transform.kind {
